@@ -54,7 +54,7 @@ func steps(c cfg) []step {
 	return []step{
 		{kind: "acquire"},
 		{kind: "adv", d: 125 * time.Millisecond}, {kind: "adv", d: 500 * time.Millisecond}, {kind: "adv", d: time.Second}, {kind: "adv", d: 10 * time.Second},
-		{kind: "sync-same"}, {kind: "sync-other-schema"},
+		{kind: "sync-same"}, {kind: "sync-other-schema"}, {kind: "sync-other-toggled"}, {kind: "sync-reordered"},
 		{kind: "reconf", to: cfg{c.qps, c.burst + 2}},     // burst only
 		{kind: "reconf", to: cfg{c.qps * 2, c.burst}},     // qps only
 		{kind: "reconf", to: cfg{c.qps + 1, c.burst + 1}}, // both
@@ -117,8 +117,16 @@ func runSeq(c *ev.Check, lim flowcontrols.UpstreamLimiter, base cfg, all []step,
 	lim.Sync(proxyv1alpha1.FlowControl{}) // drop everything: the next Sync creates a fresh (full) bucket
 	cur := base
 	otherMax := int32(1)
+	otherPresent, reordered := true, false
 	sync := func() {
-		lim.Sync(proxyv1alpha1.FlowControl{Schemas: []proxyv1alpha1.FlowControlSchema{tb("s", cur), mif("other", otherMax)}})
+		sch := []proxyv1alpha1.FlowControlSchema{tb("s", cur)}
+		if otherPresent {
+			sch = append(sch, mif("other", otherMax))
+			if reordered {
+				sch[0], sch[1] = sch[1], sch[0]
+			}
+		}
+		lim.Sync(proxyv1alpha1.FlowControl{Schemas: sch})
 	}
 	sync()
 	var now, segStart time.Duration
@@ -146,6 +154,12 @@ func runSeq(c *ev.Check, lim flowcontrols.UpstreamLimiter, base cfg, all []step,
 			sync()
 		case "sync-other-schema":
 			otherMax++
+			sync()
+		case "sync-other-toggled": // the other schema disappears / comes back: s itself is byte-identical
+			otherPresent = !otherPresent
+			sync()
+		case "sync-reordered":
+			reordered = !reordered
 			sync()
 		case "reconf":
 			if st.to == cur {
@@ -318,6 +332,6 @@ func main() {
 		"transitions":                   c.Counter("sequences")*int64(L)/2 + c.Counter("steps"),
 		"traces_validated_against_impl": c.Counter("sequences") + c.Counter("schedules"),
 		"sequence_len_bound":            L,
-		"explanation":                   "every step sequence up to the bound over 11 steps x 5 start configurations is one trace of the real limiter on the virtual clock (states = sequences, transitions ~ steps executed); plus the scheduling decision points/steps of the concurrent harnesses.",
+		"explanation":                   "every step sequence up to the bound over 13 steps x 5 start configurations is one trace of the real limiter on the virtual clock (states = sequences, transitions ~ steps executed); plus the scheduling decision points/steps of the concurrent harnesses.",
 	})
 }
